@@ -457,8 +457,20 @@ NOSAN void sim_free(void *p) {
 }
 
 // ---------------------------------------------------------------- hooks called by the binding shim
+#define MAXK 48
+static struct { char name[64]; uint64_t n; } kcount[MAXK];
+static int nk;
+NOSAN static void count_kernel(const char *name) {
+    for (int i = 0; i < nk; i++) if (!strcmp(kcount[i].name, name)) { kcount[i].n++; return; }
+    if (nk < MAXK) { strncpy(kcount[nk].name, name, 63); kcount[nk].n = 1; nk++; }
+}
+NOSAN int sim_kernel_count(int i, char *name, uint64_t *n) {
+    if (i < 0 || i >= nk) return 0;
+    strcpy(name, kcount[i].name); *n = kcount[i].n; return 1;
+}
 NOSAN void simhook_call_begin(const char *name) {
     sim_init();
+    count_kernel(name);
     strncpy(S.kernel, name, sizeof S.kernel - 1); S.kernel[sizeof S.kernel - 1] = 0;
     nbufs = 0; last_hit = NULL;
 }
